@@ -27,6 +27,7 @@ class Worker:
         env['PYTHONHASHSEED'] = hashseed
         env['PYTHONDONTWRITEBYTECODE'] = '1'
         env['SQLPARSE_VERIF'] = '1'
+        env['SIM_WID'] = str(wid)
         env.pop('PYTHONPATH', None)
         self.wid = wid
         self.hashseed = hashseed
@@ -111,6 +112,7 @@ class Agg:
         self.harness = []
         self.steps = 0
         self.walls = 0.0
+        self.slow = []
 
     def add(self, res):
         self.n += 1
@@ -128,32 +130,50 @@ class Agg:
             self.sigs_nt.add(s)
         pop = res.get('pop')
         if pop:
-            d = self.by_pop.setdefault(pop, {'runs': 0, 'nontrivial': 0})
+            d = self.by_pop.setdefault(pop, {'runs': 0, 'nontrivial': 0,
+                                             'cpu_s': 0.0})
             d['runs'] += 1
+            d['cpu_s'] = round(d['cpu_s'] + res.get('wall', 0), 3)
             if res.get('nontrivial'):
                 d['nontrivial'] += 1
         self.walls += res.get('wall', 0)
+        self.slow.append((res.get('wall', 0), res.get('idx'), pop))
+        if len(self.slow) > 64:
+            self.slow.sort(reverse=True)
+            del self.slow[12:]
+
+
+def group_of(i):
+    """Which hash-seed group executes run index i: a pure function of i (so
+    the PYTHONHASHSEED a run sees is reproducible), rotated per block so
+    that populations selected by i % k are spread over all groups.  Within a
+    group (workers with identical interpreters) indices are handed out
+    dynamically."""
+    n = len(HASHSEEDS)
+    return (i + i // 16) % n
 
 
 def run_batch(check, tier, seed, indices, ws, mod, agg, keep=(), max_viol=12,
               want_samples=3, wall_cap=None, progress=None):
-    """Static assignment: index i is executed by worker i % len(ws)."""
-    slices = {w.wid: [] for w in ws}
+    ng = len(HASHSEEDS)
+    queues = {g: [] for g in range(ng)}
     for i in indices:
-        slices[i % len(ws)].append(i)
+        queues[group_of(i)].append(i)
     sel = selectors.DefaultSelector()
     for w in ws:
-        w.queue = slices[w.wid]
         w.pending = 0
         sel.register(w.p.stdout, selectors.EVENT_READ, w)
     sample_idx = set(indices[:want_samples])
     t0 = time.monotonic()
-    stop = False
+    state = {'stop': False}
 
     def feed(w):
-        if stop or not w.queue:
+        q = queues[w.wid % ng]
+        if state['stop'] or not q:
             return False
-        chunk, w.queue = w.queue[:CHUNK], w.queue[CHUNK:]
+        n = CHUNK if len(q) > CHUNK * 8 else max(1, min(4, len(q)))
+        chunk = q[:n]
+        del q[:n]
         w.send({'cmd': 'runs', 'check': check, 'seed': seed, 'tier': tier,
                 'indices': chunk,
                 'want_spec': bool(sample_idx & set(chunk))})
@@ -168,7 +188,7 @@ def run_batch(check, tier, seed, indices, ws, mod, agg, keep=(), max_viol=12,
     while active:
         evs = sel.select(10.0)
         if wall_cap and time.monotonic() - t0 > wall_cap:
-            stop = True
+            state['stop'] = True
         for key, _ in evs:
             w = key.data
             b = os.read(w.p.stdout.fileno(), 1 << 20)
@@ -199,18 +219,18 @@ def run_batch(check, tier, seed, indices, ws, mod, agg, keep=(), max_viol=12,
                 if obj['status'] == 'violation':
                     agg.viol.append(obj)
                     if len(agg.viol) >= max_viol:
-                        stop = True
+                        state['stop'] = True
                 elif obj['status'] == 'harness':
                     agg.harness.append(obj)
                     if len(agg.harness) >= 5:
-                        stop = True
+                        state['stop'] = True
                 if progress and agg.n % progress == 0:
                     sys.stderr.write('[%s] %d runs, %d viol, %.0fs\n' % (
                         check, agg.n, len(agg.viol), time.monotonic() - t0))
     for w in ws:
         sel.unregister(w.p.stdout)
     sel.close()
-    skipped = sum(len(w.queue) for w in ws)
+    skipped = sum(len(q) for q in queues.values())
     return results, skipped
 
 
@@ -326,26 +346,30 @@ def determinism_test(check, tier, seed, sample, results, ws, mod):
     (outcomes identical) and in a freshly started interpreter."""
     div = []
     nh = len(HASHSEEDS)
-    fresh = {}
-    compared = 0
+    fresh = {hs: Worker(100 + i, hs) for i, hs in enumerate(HASHSEEDS)}
+    for w in fresh.values():
+        w.readline(120.0)
+    jobs = {}            # worker -> list of (idx, kind)
     for idx in sample:
         base = results.get(idx)
         if base is None or base.get('status') == 'harness':
             continue
-        w0 = idx % len(ws)
-        same_w = ws[(w0 + nh) % len(ws)]
-        diff_w = ws[(w0 + 1) % len(ws)]
+        if base['wid'] >= len(ws):
+            continue
+        w0 = base['wid']
         hs = ws[w0].hashseed
-        if hs not in fresh:
-            fresh[hs] = Worker(100 + len(fresh), hs)
-            fresh[hs].readline(120.0)
-        for kind, w in (('same-hashseed', same_w), ('other-hashseed', diff_w),
+        for kind, w in (('same-hashseed', ws[(w0 + nh) % len(ws)]),
+                        ('other-hashseed', ws[(w0 + 1) % len(ws)]),
                         ('fresh-interpreter', fresh[hs])):
-            w.send({'cmd': 'runs', 'check': check, 'seed': seed,
-                    'tier': tier, 'indices': [idx]})
+            jobs.setdefault(w, []).append((idx, kind))
+    for w, lst in jobs.items():
+        w.send({'cmd': 'runs', 'check': check, 'seed': seed, 'tier': tier,
+                'indices': [i for i, _k in lst]})
+    compared = 0
+    for w, lst in jobs.items():
+        for idx, kind in lst:
             r = w.readline(900.0)
-            done = w.readline(60.0)
-            assert 'chunk_done' in done
+            base = results[idx]
             compared += 1
             keys = ['status', 'outs', 'sig', 'digest'] \
                 if kind != 'other-hashseed' else ['status', 'outs']
@@ -353,6 +377,8 @@ def determinism_test(check, tier, seed, sample, results, ws, mod):
                 if r.get(k) != base.get(k):
                     div.append({'idx': idx, 'kind': kind, 'field': k,
                                 'a': base.get(k), 'b': r.get(k)})
+        done = w.readline(60.0)
+        assert 'chunk_done' in done, done
     for w in fresh.values():
         w.close()
     return compared, div
@@ -393,6 +419,7 @@ def main(check, tier, seed, runs_override=None):
     indices = list(range(nruns))
     agg = Agg()
     ws = spawn_workers(NWORKERS)
+    phases = {'spawn_s': round(time.monotonic() - t0, 2)}
     exit_code = 0
     lines = []
     try:
@@ -403,6 +430,7 @@ def main(check, tier, seed, runs_override=None):
             check, tier, seed, indices, ws, mod, agg, keep=set(sample),
             wall_cap=mod.WALL_CAP[tier],
             progress=2000 if os.environ.get('SIM_PROGRESS') else None)
+        phases['batch_s'] = round(time.monotonic() - t0, 2)
         extra = {}
         if hasattr(mod, 'extra_phase'):
             extra = mod.extra_phase(tier, seed, ws, agg, run_spec_on) or {}
@@ -410,7 +438,9 @@ def main(check, tier, seed, runs_override=None):
         sample = [i for i in sample if i in results]
         det_n, det_div = determinism_test(check, tier, seed, sample, results,
                                           ws, mod)
+        phases['det_s'] = round(time.monotonic() - t0, 2)
         ce_n, ce_div, nrefs = crossenv_test(ws)
+        phases['crossenv_s'] = round(time.monotonic() - t0, 2)
         # violations
         reported = []
         known_hits = {}
@@ -494,7 +524,7 @@ def main(check, tier, seed, runs_override=None):
             'crossenv_diffs': len(ce_div), 'refs': nrefs,
             'workers': len(ws), 'hashseeds': HASHSEEDS,
             'known_hits': {k: len(v) for k, v in known_hits.items()},
-            'reported': len(reported), 'extra': extra,
+            'reported': len(reported), 'extra': extra, 'phases': phases,
             'same_class_runs': {str(k): v[:10]
                                 for k, v in seen_cls.items()}})
         os.makedirs(os.path.join(VERIF, 'evidence'), exist_ok=True)
